@@ -251,6 +251,28 @@ func (c *Ctx) RuleBuildVars() *Result {
 			default:
 				res.ok(key, c.P.InstrPos(call), "main.version, the variable the release build sets with -X")
 			}
+			// and the callee makes it the version of the root command, which is what self-update reads
+			res.Instances++
+			key2 := load.FnName(sf) + ":version stored in the root command"
+			stored := false
+			if len(sf.Params) > 0 {
+				for _, r := range referrers(sf.Params[0]) {
+					st, ok := r.(*ssa.Store)
+					if !ok || st.Val != ssa.Value(sf.Params[0]) {
+						continue
+					}
+					if fa, ok := st.Addr.(*ssa.FieldAddr); ok && isNamed(fa.X.Type(), cobraPkg, "Command") {
+						if stt, ok := derefType(fa.X.Type()).Underlying().(*types.Struct); ok && stt.Field(fa.Field).Name() == "Version" {
+							stored = true
+						}
+					}
+				}
+			}
+			if stored {
+				res.ok(key2, c.P.FnPos(sf), "the first parameter is assigned to the Version field of the root command")
+			} else {
+				res.bad(key2, c.P.FnPos(sf), load.FnName(sf)+" no longer assigns the version it is handed to the root command: self-update compares every release with the placeholder and reinstalls or downgrades")
+			}
 		})
 	}
 	return res
@@ -891,5 +913,166 @@ func (c *Ctx) RuleCutset() *Result {
 		res.Instances++
 		res.ok("repository:constant cutsets", "-", "no Trim/TrimLeft/TrimRight with a constant cutset")
 	}
+	return res
+}
+
+// RuleLoopProgress (C19, "never loops"): a loop whose exit condition is a pure
+// function of its loop-carried values (a search in text[offset:], a scan with
+// an index) terminates only if every trip round it changes one of them. A back
+// edge on which every loop-carried value keeps its value (a `continue` that
+// forgot to advance the offset) is an endless loop for the inputs that take it.
+func (c *Ctx) RuleLoopProgress() *Result {
+	res := &Result{Rule: "LOOP-PROGRESS", MinInst: 2}
+	scope := c.reachFromNamed(func(n string) bool { return n == "(*regex/operators.Operator).Run" })
+	for _, fn := range c.P.RepoFns {
+		if !scope[load.FnName(fn)] || len(fn.Blocks) == 0 {
+			continue
+		}
+		for _, l := range naturalLoops(fn) {
+			var phis []*ssa.Phi
+			for _, in := range l.header.Instrs {
+				if ph, ok := in.(*ssa.Phi); ok {
+					phis = append(phis, ph)
+				}
+			}
+			if len(phis) == 0 {
+				continue
+			}
+			isHeaderPhi := map[ssa.Value]bool{}
+			for _, ph := range phis {
+				isHeaderPhi[ph] = true
+			}
+			// exit conditions: Ifs in the loop with a successor outside
+			pure := true
+			exits := 0
+			var dep func(v ssa.Value, d int) bool
+			dep = func(v ssa.Value, d int) bool {
+				if d > 10 {
+					return false
+				}
+				switch x := v.(type) {
+				case *ssa.Const, *ssa.Parameter, *ssa.FreeVar, *ssa.Global, *ssa.Builtin, *ssa.Function:
+					return true
+				case *ssa.Phi:
+					if isHeaderPhi[x] {
+						return true
+					}
+					for _, e := range x.Edges {
+						if !dep(e, d+1) {
+							return false
+						}
+					}
+					return true
+				case *ssa.BinOp:
+					return dep(x.X, d+1) && dep(x.Y, d+1)
+				case *ssa.UnOp:
+					if x.Op == token.MUL {
+						// a load: only of an element of a value computed purely (location[0]) or of a pattern global
+						switch y := x.X.(type) {
+						case *ssa.IndexAddr:
+							return dep(y.X, d+1) && dep(y.Index, d+1)
+						case *ssa.Global:
+							return isRegexpPtr(x)
+						}
+						return false
+					}
+					return dep(x.X, d+1)
+				case *ssa.Slice:
+					ok := dep(x.X, d+1)
+					for _, b := range []ssa.Value{x.Low, x.High} {
+						if b != nil && !dep(b, d+1) {
+							ok = false
+						}
+					}
+					return ok
+				case *ssa.Index:
+					return dep(x.X, d+1) && dep(x.Index, d+1)
+				case *ssa.Lookup:
+					return false
+				case *ssa.Convert:
+					return dep(x.X, d+1)
+				case *ssa.ChangeType:
+					return dep(x.X, d+1)
+				case *ssa.Extract:
+					return dep(x.Tuple, d+1)
+				case *ssa.Call:
+					if !l.body[x.Block()] {
+						return true // computed before the loop: invariant
+					}
+					if _, ok := isBuiltinCall(x, "len", "cap", "min", "max"); !ok {
+						f := staticCallee(&x.Call)
+						if f == nil {
+							return false
+						}
+						switch objPkgPath(f) {
+						case "strings", "bytes", "regexp", "unicode", "unicode/utf8":
+							if recvNamed(f) == "Builder" || recvNamed(f) == "Buffer" || recvNamed(f) == "Reader" {
+								return false
+							}
+						default:
+							return false
+						}
+					}
+					for _, a := range x.Call.Args {
+						if !dep(a, d+1) {
+							return false
+						}
+					}
+					return true
+				}
+				if in, ok := v.(ssa.Instruction); ok && !l.body[in.Block()] {
+					return true // loop-invariant
+				}
+				return false
+			}
+			for b := range l.body {
+				iff, ok := b.Instrs[len(b.Instrs)-1].(*ssa.If)
+				if !ok {
+					continue
+				}
+				leaves := false
+				for _, s := range b.Succs {
+					if !l.body[s] {
+						leaves = true
+					}
+				}
+				if !leaves {
+					continue
+				}
+				exits++
+				if !dep(iff.Cond, 0) {
+					pure = false
+				}
+			}
+			// a Return inside the loop is an exit too; its reachability is decided by the same Ifs
+			if exits == 0 || !pure {
+				continue
+			}
+			res.Instances++
+			key := fmt.Sprintf("%s:loop at %s makes progress", load.FnName(fn), c.P.InstrPos(l.header.Instrs[len(l.header.Instrs)-1]))
+			key = load.FnName(fn) + ":loop makes progress"
+			stuck := ""
+			for i, p := range l.header.Preds {
+				if !l.body[p] {
+					continue
+				}
+				changed := false
+				for _, ph := range phis {
+					if ph.Edges[i] != ssa.Value(ph) {
+						changed = true
+					}
+				}
+				if !changed {
+					stuck = c.P.InstrPos(p.Instrs[len(p.Instrs)-1])
+				}
+			}
+			if stuck != "" {
+				res.bad(key, c.P.InstrPos(l.header.Instrs[0]), fmt.Sprintf("the loop goes round at %s with every loop-carried value unchanged, and its exit test depends on nothing else: for an input that takes this path (an escaped look-alike of a flag group) generate never terminates", stuck))
+			} else {
+				res.ok(key, c.P.InstrPos(l.header.Instrs[0]), fmt.Sprintf("exit test is a pure function of %d loop-carried value(s); every back edge changes one of them", len(phis)))
+			}
+		}
+	}
+	res.Dedup()
 	return res
 }
